@@ -130,6 +130,10 @@ class ExprMixin:
             return self.opaque("attr")
         if isinstance(o.sort, tuple) and o.sort[0] == "Opt" and o.sort[1] == REF:
             o = unopt(o)
+        if n.attr in getattr(self.m, "props", {}):
+            r = self.m.props[n.attr](self, o, st, old)
+            if r is not NotImplemented:
+                return r
         if n.attr in self.m.fields and o.sort == REF:
             cls = self.m.field_cls.get(n.attr) if hasattr(self.m, "field_cls") else None
             return T(self.m.fields[n.attr], f"(select {self.field(st, n.attr).s} {o.s})", cls)
@@ -327,6 +331,13 @@ class ExprMixin:
             if s[0] == "Map":
                 k = self.coerce(k, s[1], "subscript")
                 e = T(("Opt", s[2]), f"(select {a.s} {k.s})")
+                dd = getattr(self.m, "defaultdicts", {})
+                if not self.spec_mode and isinstance(n.value, ast.Attribute) and n.value.attr in dd:
+                    # defaultdict: reading a missing key inserts the default and returns it
+                    dflt = T(s[2], dd[n.value.attr])
+                    newm = T(s, f"(ite {is_some(e).s} {a.s} (store {a.s} {k.s} {some(self.ctx, dflt).s}))")
+                    self.store_back(n.value, newm, st)
+                    return T(s[2], f"(ite {is_some(e).s} {unopt(e).s} {dflt.s})")
                 if self.spec_mode or self.branch(is_some(e), st):
                     return unopt(e)
                 raise RaiseEx("KeyError", None, n.lineno)
@@ -443,6 +454,8 @@ class ExprMixin:
                     parts.append(x)
                 elif isinstance(x, T) and x.sort == INT and v.format_spec is None:
                     parts.append(self.dec(x))
+                elif isinstance(x, T) and x.sort == ("Opt", STR) and v.format_spec is None and v.conversion == -1:
+                    parts.append(T(STR, f'(ite {is_some(x).s} {unopt(x).s} "None")'))
                 else:
                     parts.append(self.opaque("fmt", STR))
         if not parts:
